@@ -20,6 +20,7 @@ func init() {
 	register(
 		&Rule{ID: "PG-LADDER", Doc: "the grammar's expression ladder (operators per level, associativity) equals GRAMMAR.md and the specified precedence", Run: rulePGLadder, Min: 8},
 		&Rule{ID: "PG-LEXER", Doc: "the lexer rules and parser options are the specified ones (token classes, their order, quoting, lookahead)", Run: rulePGLexer, Min: 20},
+		&Rule{ID: "PG-POLICY", Doc: "'allow if' yields an allow policy with the allow queries, 'deny if' a deny policy with the deny queries, in both parser entry points", Run: rulePGPolicy, Min: 4},
 		&Rule{ID: "PG-EMIT", Doc: "operands are emitted before their operator (postfix), left before right (left-assoc)", Run: rulePGEmit, Min: 12},
 		&Rule{ID: "PG-OPMAP", Doc: "every operator token of the grammar maps to a defined, non-nil expression op: literal -> operatorMap -> Operator.ToExpr -> biscuit op", Run: rulePGOpMap, Min: 19},
 		&Rule{ID: "PG-ERR", Doc: "no error returned inside package parser is discarded", Run: rulePGErr, Min: 10},
@@ -904,5 +905,76 @@ func rulePGLexer(p *Prog, r *Reporter) {
 			}
 		}
 		r.Check(ok && n >= 6, p.Pos(nw.Pos()), p.FuncName(nw), "parsers built with the options", fmt.Sprintf("%d grammar entry points built with DefaultParserOptions", n), "a grammar entry point is built without DefaultParserOptions")
+	}
+}
+
+func rulePGPolicy(p *Prog, r *Reporter) {
+	globalP = p
+	allowK, denyK := p.policyKindConsts()
+	for _, fn := range []*ssa.Function{p.Func("parser", "parser", "Policy"), p.Func("parser", "Policy", "ToBiscuit")} {
+		if fn == nil {
+			r.Dunno("?", "parser.Policy", "conversion", "function not found")
+			continue
+		}
+		name := p.FuncName(fn)
+		// the returned Policy literal: Kind and Queries
+		var kind, queries ssa.Value
+		for _, a := range allocsOf(fn, "biscuit", "Policy") {
+			f := litFields(a)
+			kind, queries = f["Kind"], f["Queries"]
+		}
+		if kind == nil {
+			r.Bad(p.Pos(fn.Pos()), name, "policy literal", "no biscuit.Policy literal with a Kind")
+			continue
+		}
+		nA, nD := 0, 0
+		for _, lf := range phiLeaves(kind) {
+			k, isC := constInt(lf.val)
+			if !isC {
+				r.Bad(p.Pos(fn.Pos()), name, "policy kind", "non-constant kind "+shortD(lf.val))
+				continue
+			}
+			gs := guardsOnEdge(lf.pred, lf.blk)
+			which := ""
+			nilA, nilD := false, false
+			for _, g := range gs {
+				if bo, ok := g.cond.(*ssa.BinOp); ok && isNilConst(bo.Y) {
+					d := p.D(bo.X)
+					nonNil := (bo.Op == token.NEQ) == g.val
+					switch {
+					case strings.HasSuffix(d, ".Allow") && nonNil:
+						which = "Allow"
+					case strings.HasSuffix(d, ".Deny") && nonNil && which == "":
+						which = "Deny"
+					case strings.HasSuffix(d, ".Allow"):
+						nilA = true
+					case strings.HasSuffix(d, ".Deny"):
+						nilD = true
+					}
+				}
+			}
+			if which == "" && nilA && nilD {
+				continue // neither alternative set: excluded by the grammar (exactly one of Allow | Deny is filled by a successful parse)
+			}
+			switch {
+			case k == allowK:
+				nA++
+				r.Check(which == "Allow", p.Pos(fn.Pos()), name, "kind allow", "PolicyKindAllow exactly when the 'allow if' alternative was parsed", "PolicyKindAllow is produced on a path where the parsed alternative is not 'allow if'")
+			case k == denyK:
+				nD++
+				r.Check(which == "Deny", p.Pos(fn.Pos()), name, "kind deny", "PolicyKindDeny exactly when the 'deny if' alternative was parsed", "PolicyKindDeny is produced on a path where the parsed alternative is not 'deny if'")
+			default:
+				// zero value when neither alternative is set (cannot happen after a successful parse)
+			}
+		}
+		if _, isPhi := kind.(*ssa.Phi); !isPhi {
+			r.Bad(p.Pos(fn.Pos()), name, "policy kind", "the policy kind does not depend on the parsed alternative")
+		}
+		if nA == 0 || nD == 0 {
+			r.Bad(p.Pos(fn.Pos()), name, "policy kinds", "allow or deny alternative is never produced")
+		}
+		// the queries come from the same alternative: built by ranging over a phi of Allow.Queries / Deny.Queries
+		okQ := queries != nil && dependsOn(queries, func(x ssa.Value) bool { return strings.HasSuffix(p.D(x), ".Allow.Queries") }) && dependsOn(queries, func(x ssa.Value) bool { return strings.HasSuffix(p.D(x), ".Deny.Queries") })
+		r.Check(okQ, p.Pos(fn.Pos()), name, "policy queries", "queries converted from the parsed alternative's query list", "the policy's queries are not taken from the Allow/Deny query lists")
 	}
 }
